@@ -222,5 +222,5 @@ def run(rep):
         run_dim(rep, n)
     c02.analyse(rep, owner_filter=lambda o: o.startswith("CACHE"), rule="no-inplace-on-cached",
                 rels=[SYM])
-    rep.floor("reference-agreement", 50)
-    rep.floor("flag-independence", 20)
+    rep.floor("reference-agreement", 27)      # nine quantities x three dimensions, at least
+    rep.floor("flag-independence", 15)
